@@ -15,7 +15,7 @@ T = {
          "float inputs in general position + exactly snapping lattices; quantisation 2^-26 with slack 2", "DESIGN.md §5 C03"),
  "C04": ("lattice pipeline: normals vs spec normal -N/|N|, closure and divergence identities per cell on every embedding; pipeline F: the same identities on seeded float inputs under masks (tess recorder)",
          "identities hold up to the stated tolerance", "DESIGN.md §5 C04"),
- "C05": ("lattice pipeline in release AND dev profile on the degenerate families the lattice consists of (points on box faces/edges/corners, collinear, coplanar, co-spherical): no panic, finite, C01-C04 comparisons; every recorded clip decision validated against the exact Side sign by VCellTrace",
+ "C05": ("lattice pipeline in release AND dev profile on the degenerate families the lattice consists of (points on box faces/edges/corners, collinear, coplanar, co-spherical): no panic, finite, C01-C04 comparisons; every recorded clip decision validated against the exact Side sign by VCellTrace; totality at design level: liveness property VCell.Terminates (under weak fairness the cell machine always reaches pc = done) model-checked on small families",
          "the frequent form of finding F2 (split edges) was repaired by eb81dbb; its residual (tie decisions that give a removed set which is not a disc) is classified by VCellTrace ('discord') and stays an open known finding; failures on inputs with generators closer than 1e-7 of the box (or three mutually closer than 1e-4) are the open known finding F11; the tie breaker (exact predicate) is replayed on TLC's vectors in both profiles", "DESIGN.md §5 C05"),
  "C06": ("VCell periodic (all 3^d images as candidates; PeriodicNoWalls, ShiftLattice) -> replay; second route: real non-periodic build of the replicated set, central block; bitwise k*width shifts; translation invariance",
          "periodic lattices up to period 4 (integer range of TLC)", "DESIGN.md §5 C06"),
